@@ -236,7 +236,11 @@ def _c04_tabs(rec):
     if rec.get("kind") != "invalid_input_not_handed_back" or "\t" not in src or _parse(src) is not None:
         return False
     expanded = re.sub(r"\n\s*\n", "\n", src.expandtabs(4))
-    return _parse(expanded) is not None or _parse(textwrap.dedent(expanded)) is not None
+    if _parse(expanded) is not None or _parse(textwrap.dedent(expanded)) is not None:
+        return True
+    # ... or a tab after a line-continuation backslash (`1 + \\<TAB>`: unexpected character after line continuation), which stripping the line ends removes
+    stripped = re.sub(r"[ \t]+(?=\n|\Z)", "", expanded)
+    return _parse(stripped) is not None or _parse(textwrap.dedent(stripped)) is not None
 
 
 # ----------------------------------------------------------------------------------------- C11
